@@ -132,11 +132,14 @@ struct BlendRowMask;
 
 fn blend_row_mask<T: blend::Blend>(src: &[u32], mask: &[u8], dst: &mut [u32]) {
     for ((dst, src), mask) in dst.iter_mut().zip(src).zip(mask) {
-        *dst = lerp(
-            *dst,
-            T::blend(*src, *dst),
-            alpha_to_alpha256(*mask as u32),
-        );
+        // alpha_to_alpha256(0) is 1, not 0: pixels the shape does not cover must be left alone
+        if *mask != 0 {
+            *dst = lerp(
+                *dst,
+                T::blend(*src, *dst),
+                alpha_to_alpha256(*mask as u32),
+            );
+        }
     }
 }
 
